@@ -25,7 +25,7 @@ impl EndpointHandler<u32> for H {
     }
 }
 
-pub const PATHS: [&str; 6] = ["", "/", "/a", "/a/b", "/a:b", ":"];
+pub const PATHS: [&str; 7] = ["", "/", "/a", "/a/b", "/a:b", ":", "/a%3Ab"];
 pub const PREFIXES: [&str; 4] = ["", "/p", "/p/", "/"];
 pub const SERVER_IDS: [&str; 2] = ["router-id", ""];
 
